@@ -14,7 +14,7 @@ from .. import common, effects, guards, mir
 from ..report import short_loc
 
 QUICK = ["default"]
-THOROUGH = ["default", "nostd", "alloc", "unstable", "eio_both", "eio_both_nostd", "eio", "eioa"]
+THOROUGH = ["default", "nostd", "alloc", "unstable", "eio_both", "eio_both_nostd", "eio", "eioa", "default_dbg"]
 
 TARGETS = {
     "CircularBuffer::push_back": "push",
@@ -39,7 +39,11 @@ def run(ctx, progs):
     ctx.rule("STORE1", "every path to Ok/None passes MaybeUninit::write(_, item) and a size increase")
     ctx.rule("FULL1", "Ok/None dominated by an edge establishing size<N; Err/Some by size>=N or N==0")
     ctx.assumptions.append("INV: size <= N on entry (preservation is checked by INV1 under C04)")
+    ctx.rule("TOTAL1", "no explicit panic site (in the debug build: no debug assertion) is feasible from the four insertion functions")
     for cfg, prog in progs.items():
+        total1(ctx, prog, cfg)
+        if cfg == "default_dbg":
+            continue  # the debug build only adds the assertion sites; the ownership rules are decided on the release MIR
         found = 0
         for short, kind in TARGETS.items():
             f = ctx.need_fn(prog, short, "OWN1")
@@ -48,6 +52,23 @@ def run(ctx, progs):
             found += 1
             check_fn(ctx, prog, f, kind, cfg)
         ctx.floor("C02", "insertion functions", found, 4, cfg)
+
+
+def total1(ctx, prog, cfg):
+    """'hand back exactly ...' presupposes that the call returns: no assert!/expect/unreachable (and, with debug
+    assertions compiled in, no debug_assert!) can fire for any call of the four functions — decided by the
+    caller-context projection of C11 (guard facts of every call path projected into the callee)."""
+    from .. import panics
+
+    R = panics.Reach(prog)
+    for short in TARGETS:
+        if prog.fn(short) is None:
+            continue
+        sites = sorted(R.sites(short))
+        ctx.check(not sites, "TOTAL1", short, "no feasible panic site" + (" (debug assertions on)" if cfg == "default_dbg" else ""), prog.fn(short).loc,
+                  "`%s` can reach %s: instead of handing the element back (or storing it) the call panics%s"
+                  % (short, "; ".join("%s in `%s` (%s)" % (s[2], s[0], s[1]) for s in sites[:3]), " in builds with debug assertions" if cfg == "default_dbg" else ""),
+                  "every explicit panic site in its call closure is infeasible under the callers' guard facts", cfg)
 
 
 def item_param(f):
